@@ -24,4 +24,37 @@ META = {
                       "expressions with extreme parameters); says nothing about expressions or bitstreams not generated.",
         "technique": "runtime contract monitor over fuzzed bitstreams (MakeFuzz sub-tests + PRNG), per-node oracles, hang watchdog",
     },
+    "C01": {
+        "level": "exploration",
+        "evaluations": ["checks_run"],
+        "required": ["failures_reported", "failures_reported:cut0", "failures_reported:full", "failures_reported:midcut", "candidates_accepted", "phase:reproduce"],
+        "show": ["failures_reported", "candidates_tried", "candidates_accepted", "invocations"],
+        "rule": "random programs (property functions built from a PRNG seed: rejection-heavy generators, 1-3 failure sites of 13 failure kinds, "
+                "Repeat machines with skipping actions, cleanups, goroutines) x 6 configurations (shrinktime 0 / run to completion / deterministic "
+                "mid-round cut after K candidates, checks 1/5/100, fail files on/off, verbose); each rapid.Check is judged on TB events, the "
+                "per-invocation log and the fail file; non-trivial+distinct = distinct (program, configuration) pairs in which a failure was "
+                "reported and at least one minimisation candidate was executed",
+        "assumptions": COMMON_ASSUME,
+        "level_text": "Runtime monitor of the real Check over thousands of generated programs and cut points: the reported case is replayed "
+                      "by rapid itself and the harness property records what really happened, so 'reported failure is real', 'message names a "
+                      "failure of the final replay', 'logged draws = received draws', 'fail file = final bitstream' are decided per execution. "
+                      "Held on the executions produced only.",
+        "technique": "runtime monitoring: recording fake TB + instrumented property functions, oracle over per-invocation logs, deterministic shrink cut points",
+    },
+    "C05": {
+        "level": "exploration",
+        "evaluations": ["checks_run"],
+        "required": ["failures_reported", "accepted_steps", "unlimited_runs_terminated", "runs_where_other_sites_fired"],
+        "show": ["failures_reported", "accepted_steps", "runs_where_other_sites_fired", "unlimited_runs_terminated", "max:invocations_one_check"],
+        "rule": "random programs with 2-4 distinct failure sites (incl. programs whose minimum has equal sibling groups) x cut settings "
+                "(shrinktime 0, 1h = unlimited, deterministic cuts after K candidates); oracle: site(first falsified case) = site(every accepted "
+                "candidate) = site(final replay); every accepted candidate strictly shortlex-smaller than the current best, pruned recording <= "
+                "candidate, reported bitstream = last pruned recording <= original; unlimited runs end by themselves; non-trivial+distinct = "
+                "distinct (program, cut) pairs with >= 1 accepted shrink step",
+        "assumptions": COMMON_ASSUME + ["'recording buffer stream' identifies an accepted candidate (accept() runs a candidate a second time on a recording stream only when it reproduced)"],
+        "level_text": "Runtime monitor of every minimisation step of real Check runs: the hook exposes each candidate and each accepted "
+                      "recording, the harness's own shortlex comparator and failure-site record decide monotonicity and site preservation. "
+                      "Termination is observed (runs with a 1h limit end by themselves), not proved.",
+        "technique": "runtime monitoring of the shrinker through stream snapshots at property entry/exit; site/chain oracle; bounded-progress check for termination",
+    },
 }
